@@ -146,6 +146,35 @@ impl AsyncReader {
     }
 }
 
+/// A regular file whose every `write` call is announced to the simulator first: a scheduling
+/// point between the write calls of sessions that share the file.
+pub(crate) struct AnnouncedFile {
+    inner: std::fs::File,
+    kind: &'static str,
+}
+
+impl AnnouncedFile {
+    /// Wraps the given file; `kind` names it in the simulator's log.
+    pub(crate) const fn new(inner: std::fs::File, kind: &'static str) -> Self {
+        Self { inner, kind }
+    }
+}
+
+impl io::Write for AnnouncedFile {
+    fn write(&mut self, buf: &[u8]) -> io::Result<usize> {
+        if let Some(h) = hooks() {
+            if let Some(e) = (h.io_point)(self.kind, true, buf.len()) {
+                return Err(e);
+            }
+        }
+        self.inner.write(buf)
+    }
+
+    fn flush(&mut self) -> io::Result<()> {
+        self.inner.flush()
+    }
+}
+
 /// Announces that the given task handle is about to be awaited.
 pub(crate) fn before_join<T>(handle: &tokio::task::JoinHandle<T>) {
     if let Some(h) = hooks() {
